@@ -180,6 +180,24 @@ let of_equiv (fields : string array) (impl : string) : string =
   let ci : q = Obj.obj (arrangement_cost numQ p fs lws ranges) and co : q = Obj.obj (opt_cost numQ p fs lws) in
   if qeq_bool ci co then "ok-tie" else if c03_pre fs lws then "DIFF" else "ok-outside-c03"
 
+(* a result with the Cow kinds erased: "B12:61.62" / "S:_" / "O:61" -> "L:..."; the hex
+   encoding uses lower-case letters only, so B, S and O occur nowhere else *)
+let bad_result (impl : string) = impl = "PANIC" || impl = "HANG" || impl = "ERR"
+let erase_cow (s : string) : string =
+  let b = Buffer.create (String.length s) in
+  let n = String.length s in
+  let i = ref 0 in
+  while !i < n do
+    let c = s.[!i] in
+    if c = 'B' || c = 'S' || c = 'O' then begin
+      let j = ref (!i + 1) in
+      while !j < n && s.[!j] >= '0' && s.[!j] <= '9' do incr j done;
+      if !j < n && s.[!j] = ':' && (c = 'B' || !j = !i + 1) then begin Buffer.add_string b "L:"; i := !j + 1 end
+      else begin Buffer.add_char b c; incr i end
+    end else begin Buffer.add_char b c; incr i end
+  done;
+  Buffer.contents b
+
 (* ------------------------------------------------------------------ main loop *)
 let () =
   cw_tbl := load_ranges Sys.argv.(1) 3;
@@ -208,6 +226,7 @@ let () =
              if m = impl then ("ok", m)
              else if m = "IMPL-ONLY" then ("ok-impl-only", "")
              else if args.(0) = "of" then (of_equiv args impl, m)
+             else if erase_cow m = erase_cow impl && not (bad_result impl) then ("ok-cowkind", m)
              else ("DIFF", m)
            with
            | Oracle_miss k -> ("ORACLE", "miss " ^ k)
